@@ -43,6 +43,8 @@ module Nat :
   val div : nat -> nat -> nat
 
   val modulo : nat -> nat -> nat
+
+  val eq_dec : nat -> nat -> bool
  end
 
 type positive =
@@ -174,6 +176,8 @@ module N :
   val of_nat : nat -> n
  end
 
+val in_dec : ('a1 -> 'a1 -> bool) -> 'a1 -> 'a1 list -> bool
+
 val nth : nat -> 'a1 list -> 'a1 -> 'a1
 
 val nth_error : 'a1 list -> nat -> 'a1 option
@@ -186,6 +190,8 @@ val flat_map : ('a1 -> 'a2 list) -> 'a1 list -> 'a2 list
 
 val fold_left : ('a1 -> 'a2 -> 'a1) -> 'a2 list -> 'a1 -> 'a1
 
+val existsb : ('a1 -> bool) -> 'a1 list -> bool
+
 val forallb : ('a1 -> bool) -> 'a1 list -> bool
 
 val filter : ('a1 -> bool) -> 'a1 list -> 'a1 list
@@ -195,6 +201,8 @@ val find : ('a1 -> bool) -> 'a1 list -> 'a1 option
 val firstn : nat -> 'a1 list -> 'a1 list
 
 val skipn : nat -> 'a1 list -> 'a1 list
+
+val nodup : ('a1 -> 'a1 -> bool) -> 'a1 list -> 'a1 list
 
 val repeat : 'a1 -> nat -> 'a1 list
 
@@ -320,9 +328,13 @@ val remove_at : nat -> 'a1 list -> 'a1 list
 
 val update_at : nat -> 'a1 -> 'a1 list -> 'a1 list
 
+val k_MaxPacketLength : z
+
 val g_AttributesEncodedLen : guard list
 
 val g_Attributes_encodeTo : guard list
+
+val g_Client_Exchange : guard list
 
 val g_Date : guard list
 
@@ -535,51 +547,120 @@ val low_zero : n -> nat -> bool
 
 val ipv6prefix : bytes -> (bytes * bytes) res
 
-val spec_dec_uint : nat -> bytes -> n res
+val e_nonauth : n
 
-val spec_enc_uint : nat -> n -> bytes
+type outcome =
+| Returned of packet * nat
+| Failed of n * nat
+| Waiting of z
 
-val spec_new_octets : bytes -> bytes res
+val over_budget : z -> nat -> z -> bool
 
-val v4_mapped_prefix : bytes
+val client_loop :
+  (bytes -> bytes) -> z -> bool -> bytes -> bytes -> bytes list -> z -> nat
+  -> outcome
 
-val ip_canon : bytes -> bytes option
+val exchange_recv :
+  (bytes -> bytes) -> z -> bool -> bytes -> bytes -> bytes list -> outcome
 
-val spec_new_ipaddr : bytes -> bytes res
+type sret =
+| RetShutdown
+| RetErr
 
-val spec_fixed : nat -> bytes -> bytes res
+type spc =
+| S_start
+| S_locked
+| S_reg
+| S_unl
+| S_registered
+| S_reading
+| S_exit of sret
+| S_exit_locked of sret
+| S_exit_unl of sret
+| S_returned of sret
 
-val spec_new_ipv6addr : bytes -> bytes res
+type dpc =
+| D_start of bool
+| D_handler
+| D_exit
+| D_end
 
-val spec_new_date : z -> bytes res
+type hpc =
+| H_start
+| H_locked
+| H_close
+| H_cancel
+| H_dec
+| H_unlock
+| H_wait
+| H_select
+| H_ret_nil
+| H_ret_err
 
-val spec_date : bytes -> z res
+type thread =
+| TServe of nat * spc
+| TDgram of dpc
+| TShut of hpc * bool
 
-val spec_new_vsa : n -> bytes -> bytes res
+type state = { mu : bool; shut : bool; active : z; closes : nat; sdec : 
+               bool; regs : nat list; closedc : nat list; cancelled : 
+               bool; threads : thread list }
 
-val spec_vsa : bytes -> (n * bytes) res
+val init : state
 
-val spec_new_tlv : n -> bytes -> bytes res
+type action =
+| ARun
+| ARead_datagram of bool
+| ARead_error of bool
+| AHandler_return
+| AWake_nil
+| AWake_err
+| AExpire
 
-val spec_tlv6929 : bytes -> (n * bytes) res
+val set_thread : state -> nat -> thread -> state
 
-val byte_bits : n -> bool list
+val with_mu : state -> bool -> state
 
-val bits_of : bytes -> bool list
+val active_add : state -> state
 
-val leading_ones : bool list -> nat
+val active_done : state -> state
 
-val spec_mask_ones : bytes -> nat option
+val remove_one : nat -> nat list -> nat list
 
-val clear_low : n -> nat -> n
+val step_serve : bool -> state -> nat -> nat -> spc -> action -> state option
 
-val apply_mask : bytes -> nat -> bytes
+val step_dgram : state -> nat -> dpc -> action -> state option
 
-val mask_of : nat -> nat -> bytes
+val step_shut : state -> nat -> hpc -> bool -> action -> state option
 
-val spec_new_ipv6prefix : bytes -> bytes -> bytes res
+val step : bool -> state -> nat -> action -> state option
 
-val spec_ipv6prefix : bytes -> (bytes * bytes) res
+val add_thread : state -> thread -> state
+
+type hact =
+| HServe of nat
+| HRelease of nat
+| HDeliver of nat * bool
+| HHandlerDone of nat
+| HShutdown
+| HWait of nat
+| HExpire of nat
+
+val run_thread : bool -> nat -> state -> nat -> state
+
+val settle_thread : bool -> state -> nat -> state
+
+val settle_all : bool -> state -> nat -> state
+
+val settle : bool -> state -> state
+
+val force_step : bool -> state -> nat -> action -> state
+
+val do_hact : bool -> state -> hact -> state
+
+val status : thread -> z
+
+val run_hacts : bool -> state -> hact list -> z list list
 
 val is_key : z -> avp -> bool
 
@@ -641,6 +722,68 @@ val spec_is_authentic_response :
   (bytes -> bytes) -> bytes -> bytes -> bytes -> bool
 
 val spec_is_authentic_request : (bytes -> bytes) -> bytes -> bytes -> bool
+
+type verdict =
+| Acceptable of ((((z * n) * bytes) * bytes) * attrs)
+| Bad of n
+
+val classify : (bytes -> bytes) -> bool -> bytes -> bytes -> bytes -> verdict
+
+type soutcome =
+| SReturned of ((((z * n) * bytes) * bytes) * attrs) * nat
+| SFailed of n * nat
+| SWaiting of z
+
+val spec_recv : verdict list -> nat option -> z -> nat -> soutcome
+
+val spec_exchange_recv :
+  (bytes -> bytes) -> z -> bool -> bytes -> bytes -> bytes list -> soutcome
+
+val spec_dec_uint : nat -> bytes -> n res
+
+val spec_enc_uint : nat -> n -> bytes
+
+val spec_new_octets : bytes -> bytes res
+
+val v4_mapped_prefix : bytes
+
+val ip_canon : bytes -> bytes option
+
+val spec_new_ipaddr : bytes -> bytes res
+
+val spec_fixed : nat -> bytes -> bytes res
+
+val spec_new_ipv6addr : bytes -> bytes res
+
+val spec_new_date : z -> bytes res
+
+val spec_date : bytes -> z res
+
+val spec_new_vsa : n -> bytes -> bytes res
+
+val spec_vsa : bytes -> (n * bytes) res
+
+val spec_new_tlv : n -> bytes -> bytes res
+
+val spec_tlv6929 : bytes -> (n * bytes) res
+
+val byte_bits : n -> bool list
+
+val bits_of : bytes -> bool list
+
+val leading_ones : bool list -> nat
+
+val spec_mask_ones : bytes -> nat option
+
+val clear_low : n -> nat -> n
+
+val apply_mask : bytes -> nat -> bytes
+
+val mask_of : nat -> nat -> bytes
+
+val spec_new_ipv6prefix : bytes -> bytes -> bytes res
+
+val spec_ipv6prefix : bytes -> (bytes * bytes) res
 
 val rfc_up_enc : (bytes -> bytes) -> nat -> bytes -> bytes -> bytes -> bytes
 
@@ -799,5 +942,15 @@ val t_nb : (n * bytes) -> tok list
 val zn : z list -> n
 
 val dispatch_codec : bytes -> bytes list -> z list -> tok list option
+
+val t_outcome : outcome -> tok list
+
+val t_soutcome : soutcome -> tok list
+
+val dispatch_client : bytes -> bytes list -> z list -> tok list option
+
+val take_hacts : z list -> hact list
+
+val dispatch_sched : bytes -> bytes list -> z list -> tok list option
 
 val dispatch : bytes -> bytes list -> z list -> tok list
